@@ -55,9 +55,12 @@ def build_tree(ctx, rng, cid):
                 gen.write(p, gen.xz_bytes(s.plain_bytes()))
                 files[rel] = ("log", s)
             elif nm.endswith(".tar"):
-                s1, s2 = mk_source(ties), mk_source(ties)
-                gen.write(p, gen.tar_bytes([("in/one.log", s1.plain_bytes(), 1_600_000_000), ("in/two.log", s2.plain_bytes(), 1_600_000_000)]))
-                files[rel] = ("tar", [s1, s2])
+                s1, s2, s3 = mk_source(ties), mk_source(ties), mk_source(ties)
+                # naming the archive explicitly processes every member, so walking onto it must too (also a member whose
+                # name has a non-log suffix)
+                gen.write(p, gen.tar_bytes([("in/one.log", s1.plain_bytes(), 1_600_000_000), ("in/two.log", s2.plain_bytes(), 1_600_000_000),
+                                            ("in/tool.sh", s3.plain_bytes(), 1_600_000_000)]))
+                files[rel] = ("tar", [s1, s2, s3])
             else:
                 s = mk_source(ties)
                 gen.write(p, s.plain_bytes())
